@@ -105,7 +105,7 @@ Definition render_json (j : list item) : jjv := JJObj (map json_of_item j).
 (* a word that the command line reads as a positional argument: not starting with '-' (the single word "-" is positional) *)
 Definition positional_word (f : bstr) : bool :=
   match f with
-  | 45 :: _ :: _ => false
+  | c :: _ :: _ => negb (c =? 45)
   | _ => true
   end.
 
@@ -120,17 +120,22 @@ Definition main_array (e : aentry) : bool :=
    took its place) and the second the output (unless --replace-input took its place); job JSON names them. The notations
    correspond when: the input comes before the output, at most one of each, and inputFile is not given after "empty" (for that last
    combination see empty_with_input_refuted). state: (input given, output given) *)
+Definition pos_ok (it : item) (gi go : bool) : bool :=
+  match it with
+  | IIn f => negb gi && positional_word f
+  | IOut f => gi && negb go && positional_word f
+  | _ => true
+  end.
+Definition pos_next (it : item) (gi go : bool) : bool * bool :=
+  match it with
+  | IIn _ | IEmpty => (true, go)
+  | IOut _ | IReplace => (gi, true)
+  | _ => (gi, go)
+  end.
 Fixpoint wf_pos (j : list item) (gi go : bool) : bool :=
   match j with
   | [] => true
-  | it :: r =>
-      match it with
-      | IIn f => negb gi && positional_word f && wf_pos r true go
-      | IOut f => gi && negb go && positional_word f && wf_pos r gi true
-      | IEmpty => wf_pos r true go
-      | IReplace => wf_pos r gi true
-      | _ => wf_pos r gi go
-      end
+  | it :: r => pos_ok it gi go && wf_pos r (fst (pos_next it gi go)) (snd (pos_next it gi go))
   end.
 
 Definition wf_item (tbl : list aentry) (it : item) : Prop :=
